@@ -153,12 +153,19 @@ func Congruence(fn *ssa.Function, m *Modulus) CongruenceResult {
 		}
 	}
 	memo := map[ssa.Value]poly{}
+	// upper bound of every word value (interval reasoning, for the two places where the code relies on "cannot
+	// overflow": a plain + of two words and an Add64 whose carry-out is discarded)
+	ub := map[ssa.Value]*big.Int{}
+	wordMax := new(big.Int).Sub(two64, big.NewInt(1))
 	natom := 0
 	fresh := func(prefix string) poly {
 		natom++
 		return patom(fmt.Sprintf("%s%d", prefix, natom))
 	}
-	type callVal struct{ a, b poly }
+	type callVal struct {
+		a, b   poly
+		ua, ub *big.Int
+	}
 	calls := map[*ssa.Call]*callVal{}
 	var fail func(pos token.Pos, format string, a ...interface{})
 	failed := false
@@ -176,16 +183,23 @@ func Congruence(fn *ssa.Function, m *Modulus) CongruenceResult {
 		return cal.Name()
 	}
 	var eval func(v ssa.Value) poly
+	bound := func(v ssa.Value) *big.Int {
+		if b, ok := ub[r(v)]; ok {
+			return b
+		}
+		return wordMax
+	}
 	evalCall := func(c *ssa.Call) *callVal {
 		if cv, ok := calls[c]; ok {
 			return cv
 		}
-		cv := &callVal{}
+		cv := &callVal{ua: wordMax, ub: wordMax}
 		calls[c] = cv
 		switch bitsCall(c) {
 		case "Mul64":
 			a, b := eval(c.Call.Args[0]), eval(c.Call.Args[1])
 			prod := a.mul(b)
+			cv.ua = new(big.Int).Rsh(new(big.Int).Mul(bound(c.Call.Args[0]), bound(c.Call.Args[1])), 64)
 			if k, isC := prod.isConst(); isC {
 				cv.a = pconst(new(big.Int).Rsh(k, 64))
 				cv.b = pconst(new(big.Int).And(k, new(big.Int).Sub(two64, big.NewInt(1))))
@@ -197,6 +211,15 @@ func Congruence(fn *ssa.Function, m *Modulus) CongruenceResult {
 		case "Add64":
 			a, b, k := eval(c.Call.Args[0]), eval(c.Call.Args[1]), eval(c.Call.Args[2])
 			full := a.add(b, 1).add(k, 1)
+			tot := new(big.Int).Add(new(big.Int).Add(bound(c.Call.Args[0]), bound(c.Call.Args[1])), bound(c.Call.Args[2]))
+			if tot.Cmp(wordMax) <= 0 {
+				cv.ua, cv.ub = tot, new(big.Int)
+			} else {
+				cv.ub = big.NewInt(1)
+			}
+			if !used[c][1] && tot.Cmp(wordMax) > 0 {
+				fail(c.Pos(), "the carry out of this addition is discarded although the operands' ranges allow it to be set (upper bounds sum to %s)", tot.Text(16))
+			}
 			switch {
 			case !used[c][0] && used[c][1]:
 				// the sum word is discarded: it must be 0, i.e. the full sum ≡ 0 (mod 2^64) as a polynomial
@@ -242,10 +265,13 @@ func Congruence(fn *ssa.Function, m *Modulus) CongruenceResult {
 				fail(fn.Pos(), "non-integer constant")
 			}
 			out = pconst(new(big.Int).SetUint64(k))
+			ub[v] = new(big.Int).SetUint64(k)
 		case *ssa.Convert:
 			out = eval(x.X)
+			ub[v] = bound(x.X)
 		case *ssa.ChangeType:
 			out = eval(x.X)
+			ub[v] = bound(x.X)
 		case *ssa.UnOp:
 			ia, isI := x.X.(*ssa.IndexAddr)
 			if x.Op != token.MUL || !isI {
@@ -263,6 +289,11 @@ func Congruence(fn *ssa.Function, m *Modulus) CongruenceResult {
 			switch x.Op {
 			case token.ADD:
 				out = eval(x.X).add(eval(x.Y), 1)
+				tot := new(big.Int).Add(bound(x.X), bound(x.Y))
+				if tot.Cmp(wordMax) > 0 {
+					fail(x.Pos(), "a plain addition of two words whose ranges allow it to wrap (upper bounds sum to %s)", tot.Text(16))
+				}
+				ub[v] = tot
 			case token.MUL:
 				out = eval(x.X).mul(eval(x.Y))
 			default:
@@ -277,8 +308,10 @@ func Congruence(fn *ssa.Function, m *Modulus) CongruenceResult {
 			cv := evalCall(c)
 			if x.Index == 0 {
 				out = cv.a
+				ub[v] = cv.ua
 			} else {
 				out = cv.b
+				ub[v] = cv.ub
 			}
 		default:
 			fail(v.Pos(), "unsupported value %T in a generated primitive", v)
